@@ -127,6 +127,9 @@ func decodeReq(l []int64) (reqOp, bool) {
 var zones = []string{"eth0", "1", "en0", "lo", "vEthernet (vmxnet3 Ethernet Adapter - Virtual Switch)", "wlan0.5", "a%b"}
 
 func genIP4(rng *rand.Rand) net.IP {
+	if rng.Intn(6) == 0 {
+		return net.IPv4(127, byte(rng.Intn(2)), 0, byte(1+rng.Intn(3))) // loopback peers (a local proxy in front)
+	}
 	return net.IPv4(byte(rng.Intn(256)), byte(rng.Intn(256)), byte(rng.Intn(256)), byte(rng.Intn(256)))
 }
 
@@ -219,9 +222,10 @@ func genAddr(rng *rand.Rand) string {
 	}
 }
 
-var headerNames = []string{"X-Source-Id", "x-source-id", "X-RATE-KEY", "Authorization", "a", "x-forwarded-for", "Cookie", "weird name", "X_Under", "ETag", "Host", "host", "Content-Length", "Transfer-Encoding"}
+var headerNames = []string{"X-Source-Id", "x-source-id", "X-RATE-KEY", "Authorization", "a", "x-forwarded-for", "Cookie", "weird name", "X_Under", "ETag", "Host", "host", "Content-Length", "Transfer-Encoding", "X-Real-Ip", "X-Real-Ip", "X-Forwarded-For"}
 var hostValues = []string{"example.com", "example.com:8080", "", "[::1]:80", "EXAMPLE.com", "a b", "xn--bcher-kva.example"}
-var headerValues = []string{"alice", "bob", "", "tenant-7", "a, b", " spaced ", "\xc3\xa9", "1"}
+var longValue = strings.Repeat("bearer-", 50) // values longer than any plausible key-size bound, equal in their first 350 bytes
+var headerValues = []string{"alice", "bob", "", "tenant-7", "a, b", " spaced ", "\xc3\xa9", "1", longValue + "A", longValue + "B", "10.1.1.1", "anything at all"}
 
 var variables = []string{
 	"client.ip", "client.ip", "client.ip", "client.ip", "request.host",
